@@ -481,6 +481,14 @@ class S:
     def conjugate(s):
         return s
 
+    @property
+    def real(s):
+        return s
+
+    @property
+    def imag(s):
+        return 0
+
     def __repr__(s):
         if s.const is not None:
             return f"S({s.const})"
